@@ -136,13 +136,26 @@ class Program:
         if not os.environ.get("VK_NO_RENAMEBACK"):
             from . import renameback
             recorded = renameback.load_recorded()
-            self.renamed_back = renameback.apply({name: (m.path, m.tree) for name, m in self.modules.items()}, recorded)
+            trees = {name: (m.path, m.tree) for name, m in self.modules.items()}
+            self.renamed_back = renameback.apply(trees, recorded)
             if not os.environ.get("VK_NO_TEMP_INLINING"):
                 from . import inlinetemps
-                self.temps_inlined = inlinetemps.apply({name: (m.path, m.tree) for name, m in self.modules.items()}, recorded)
-                if self.temps_inlined:
+                # alternate: temporaries that mention no other unknown local are read through, which may complete the binding
+                # of a renamed local (then renamed back), which may turn another temporary into such a leaf ...
+                for _ in range(25):
+                    ti = inlinetemps.apply(trees, recorded, leaf_only=True)
+                    if ti:
+                        self._canonicalise_tests(only={l.split(":")[0] for l in ti})
+                    rb = renameback.apply(trees, recorded)
+                    self.temps_inlined += ti
+                    self.renamed_back += rb
+                    if not ti and not rb:
+                        break
+                ti = inlinetemps.apply(trees, recorded)
+                self.temps_inlined += ti
+                if ti:
                     # the substituted expressions may complete a spelling the canonicaliser knows
-                    self._canonicalise_tests(only={l.split(":")[0] for l in self.temps_inlined})
+                    self._canonicalise_tests(only={l.split(":")[0] for l in ti})
         self._index()
         self._canonicalise_calls()
 
